@@ -120,6 +120,60 @@ def run_crashdrv(bindir, upath, hs, wd, fpath):
     return files, lost
 
 
+def real_kills(bindir, upath, hs, tfiles, wd, fpath, rnd, k):
+    """Cross-check of the image model with real kills: for k seed-sampled (history, yield point, occurrence) a child
+    process replays the history and SIGKILLs itself at that point; another process opens the directory it left behind.
+    Returns a trace file (same line format, `r`/`cont`/`q`/`opened` from the killed store) and the number of cases in
+    which the killed store and the image of the same point differ."""
+    lines = []
+    for t in tfiles:
+        for l in open(t):
+            lines.append(l)
+    if not lines:
+        return None, 0, 0
+    pick = rnd.sample(lines, min(k, len(lines)))
+    byh = {h["id"]: h for h in hs}
+    out_path = os.path.join(wd, "kills.ndjson")
+    differ = done = 0
+    tmp = "/dev/shm" if os.path.isdir("/dev/shm") else "/tmp"
+    import tempfile
+    with open(out_path, "w") as out:
+        for l in pick:
+            r = json.loads(l)
+            h = byh[r["h"]]
+            with tempfile.TemporaryDirectory(prefix="pvk", dir=tmp) as td:
+                d = os.path.join(td, "s")
+                os.mkdir(d)
+                cp = os.path.join(td, "case.json")
+                json.dump(dict(ops=h["ops"], point=r["point"], occ=r["occ"]), open(cp, "w"))
+                contp = os.path.join(td, "cont.json")
+                json.dump(h["cont"], open(contp, "w"))
+                p = subprocess.run([os.path.join(bindir, "crashdrv"), "kill", "--universe", upath, "--dir", d, "--case", cp],
+                                   stdout=subprocess.PIPE, stderr=subprocess.STDOUT, timeout=120)
+                if p.returncode != -9:
+                    continue   # the point was not reached in this process (e.g. timing-dependent growth): skip
+                q = subprocess.run([os.path.join(bindir, "crashdrv"), "inspect", "--universe", upath, "--dir", d, "--cont", contp,
+                                    "--filters", fpath], stdout=subprocess.PIPE, stderr=subprocess.DEVNULL, timeout=120, text=True)
+                try:
+                    ins = json.loads(q.stdout.strip().splitlines()[-1])
+                except Exception:
+                    ins = dict(opened="inspect died rc=%s" % q.returncode, r={"open": 0}, q=[], cont=[])
+                done += 1
+                if ins["opened"] == "ok" and r["opened"] == "ok":
+                    a, b = ins["r"], r["r"]
+                    if (a.get("retr"), a.get("delIds"), a.get("delAddr"), a.get("ix")) != (b.get("retr"), b.get("delIds"), b.get("delAddr"), b.get("ix")):
+                        differ += 1
+                elif ins["opened"] != r["opened"]:
+                    differ += 1
+                nr = dict(r)
+                if ins["opened"] != "ok":
+                    ins["r"] = dict(open=0, retr=[], corrupt=[], delIds=[], delAddr=[], find=[], ix=[], end=-1, flen=-1, gen=0,
+                                    offs=[], extra=[], bak=0)
+                nr.update(opened=ins["opened"], r=ins["r"], q=ins["q"], cont=ins["cont"])
+                out.write(json.dumps(nr) + "\n")
+    return out_path, done, differ
+
+
 def judge(upath, tfiles, fpath):
     def one(t):
         n = sum(1 for _ in open(t))
@@ -166,10 +220,20 @@ def run(prop, tier, seed, replay=None):
     t1 = time.time()
     bad, img, lines = judge(upath, tfiles, fpath)
     C.log("[C13] %d histories, %d images, crashdrv %.1fs, judge %.1fs, %d bad images" % (len(hs), lines, t1 - t0, time.time() - t1, len(bad)))
+    # real kills (SIGKILL of a child process at the yield point) for a seed-sampled subset
+    t2 = time.time()
+    kpath, kills, kdiffer = real_kills(bindir, upath, hs, tfiles, wd, fpath, rnd, 60 if tier == "quick" else 800)
+    if kpath and kills:
+        kbad, _, klines = judge(upath, [kpath], fpath)
+        for b in kbad:
+            b["real_kill"] = True
+        bad += kbad
+        C.log("[C13] %d real kills in %.1fs: %d judged bad, %d differ from the image of the same point" %
+              (kills, time.time() - t2, len(kbad), kdiffer))
     byh = {h["id"]: h for h in hs}
     seen = {}
     for b in bad:
-        key = "C13:%s:%s:%s" % ("+".join(sorted(b["v"])), b["k"], b["point"])
+        key = "C13:%s:%s:%s%s" % ("+".join(sorted(b["v"])), b["k"], b["point"], ":real_kill" if b.get("real_kill") else "")
         seen[key] = seen.get(key, 0) + 1
         if seen[key] > 2:
             continue
@@ -196,10 +260,11 @@ def run(prop, tier, seed, replay=None):
         samples=[dict(ops=[[o["k"], o.get("a", 0)] for o in h["ops"]][:12], cont=h["cont"]) for h in hs[:3]],
         histories=len(hs), edge_cover_size=total, distinct_call_points=distinct_points,
         image_outcomes=points, model=dict(module="PocketStoreSteps.tla", configs=STEP_CFGS, states=mst, transitions=mtr),
-        harness_batches_lost=len(lost),
+        harness_batches_lost=len(lost), real_kills=kills, real_kills_differing_from_image=kdiffer,
     )
     V.assumptions = ["kill = process death with the OS surviving: an image is a copy of event.map and lmdb/data.mdb taken while the "
                      "process is parked at the yield point (page cache contents); power loss is out of scope (NO_SYNC)",
                      "LMDB's own commit atomicity is trusted: kill points sit before and after commit, not inside it",
-                     "yield points exist only where pocket-db has them (feature verif)"]
+                     "yield points exist only where pocket-db has them (feature verif)",
+                     "a seed-sampled subset of the images is cross-checked with real SIGKILLs of a child process at the same point"]
     return V.finish()
